@@ -50,6 +50,7 @@ func runC09(p *core.Prog, r *core.Report) {
 	// the importer skips what the target already has: that question goes to the target
 	headAsksRule(p, r, "C09.R12")
 	c09R13(p, r)
+	c09R14(p, r)
 }
 
 // c09R11: the archive names the image by the tag it was exported under, and the export takes that
@@ -1369,4 +1370,116 @@ func storesIntoResult(v ssa.Value, cells map[*ssa.Alloc]bool, depth int) bool {
 		}
 	}
 	return false
+}
+
+// ---------------------------------------------------------------------------------------------
+// R14 a Docker import that selects nothing fails
+
+// c09R14: importing a Docker-format archive by name walks the entries of manifest.json for one whose
+// RepoTags contain the name. When none does there is nothing to import: the function that made the
+// selection has to say so with an error. A warning and a plain return let the caller go on and push
+// the manifest it had prepared — empty — under the target tag (found D26).
+func c09R14(p *core.Prog, r *core.Report) {
+	const rule = "C09.R14"
+	r.Rule(rule, "a Docker import that selects nothing fails: in the function of the client package that looks a requested name up in the RepoTags of the manifest.json entries, with the edges removed on which an entry matched or no name was requested, every reachable return reports a failure", 1)
+	n := 0
+	for _, fn := range pkgFuncs(p, ".") {
+		if fn.Parent() != nil {
+			continue
+		}
+		// membership tests of a RepoTags field
+		var tests []ssa.Value
+		core.Calls(fn, func(c ssa.CallInstruction) {
+			cal := core.Callee(c)
+			if cal == nil || cal.Pkg() == nil || cal.Pkg().Path() != "slices" || !(cal.Name() == "Contains" || cal.Name() == "Index" || cal.Name() == "ContainsFunc" || cal.Name() == "IndexFunc") {
+				return
+			}
+			if len(c.Common().Args) < 1 {
+				return
+			}
+			for _, o := range core.Origins(c.Common().Args[0], core.SliceOpts{}) {
+				if o.Kind == core.OField && o.Field == "RepoTags" {
+					if v, ok := c.(ssa.Value); ok {
+						tests = append(tests, v)
+					}
+				}
+			}
+		})
+		if len(tests) == 0 {
+			continue
+		}
+		n++
+		dependsOnTest := func(v ssa.Value) bool {
+			seen := map[ssa.Value]bool{}
+			var walk func(x ssa.Value, d int) bool
+			walk = func(x ssa.Value, d int) bool {
+				if x == nil || d > 5 || seen[x] {
+					return false
+				}
+				seen[x] = true
+				for _, t := range tests {
+					if x == t {
+						return true
+					}
+				}
+				if in, ok := x.(ssa.Instruction); ok {
+					if _, isCall := x.(*ssa.Call); isCall {
+						return false
+					}
+					for _, op := range in.Operands(nil) {
+						if op != nil && *op != nil && walk(*op, d+1) {
+							return true
+						}
+					}
+				}
+				return false
+			}
+			return walk(v, 0)
+		}
+		stopEdge := func(from, to *ssa.BasicBlock) bool {
+			ifi, ok := core.LastInstr(from).(*ssa.If)
+			if !ok || len(from.Succs) != 2 {
+				return false
+			}
+			cnd, pol := core.StripNot(ifi.Cond, true)
+			// an entry matched
+			if dependsOnTest(cnd) {
+				if bo, isB := cnd.(*ssa.BinOp); isB {
+					// slices.Index(...) >= 0 / != -1: treat the edge on which the comparison holds as "matched"
+					_ = bo
+				}
+				matched := from.Succs[0]
+				if !pol {
+					matched = from.Succs[1]
+				}
+				return to == matched
+			}
+			// no name requested: `name != ""` false edge / `name == ""` true edge
+			if bo, isB := cnd.(*ssa.BinOp); isB && (bo.Op == token.EQL || bo.Op == token.NEQ) && isStringType(bo.X.Type()) {
+				if sv, isC := core.ConstString(bo.Y); isC && sv == "" {
+					if _, isF := core.Origins(bo.X, core.SliceOpts{})[0].Val.(ssa.Value); isF || true {
+						empty := from.Succs[0]
+						if (bo.Op == token.EQL) != pol {
+							empty = from.Succs[1]
+						}
+						return to == empty
+					}
+				}
+			}
+			return false
+		}
+		bad := ""
+		seen := core.Reach{StopEdge: stopEdge}.FromEntry(fn)
+		for _, ret := range core.Returns(fn) {
+			if seen[ret] && !failureReturn(fn, ret) {
+				if pos := p.Pos(ret.Pos()); bad == "" || pos < bad {
+					bad = pos
+				}
+			}
+		}
+		r.Check(bad == "", rule, p.FuncName(fn), "selection that finds nothing", p.Pos(fn.Pos()), "the return at "+bad+" is reached when a name was requested and no entry of manifest.json carries it, and it does not report a failure: the caller pushes the empty manifest it had prepared and the import reports success")
+	}
+	if n == 0 {
+		r.MissingAnchor(rule, "lookup of a name in the RepoTags of manifest.json entries")
+	}
 }
